@@ -49,6 +49,8 @@ fn reason_class(r: &str) -> &'static str {
         "metadata-label-out-of-range"
     } else if r.contains("overflow") {
         "arithmetic-overflow"
+    } else if r.contains("output index") {
+        "output-index-beyond-32-bits"
     } else if r.contains("beyond 64 bits") {
         "amount-beyond-64-bits"
     } else if r.contains("list index") {
